@@ -6,7 +6,7 @@ FW = [W + "svt_od_ec_encode_cdf_q15", W + "svt_od_ec_encode_bool_q15", W + "od_e
 FR = [R + "od_ec_decode_cdf_q15", R + "od_ec_decode_bool_q15", R + "od_ec_dec_refill", R + "od_ec_dec_normalize", R + "dec_update_cdf",
       "Source/Lib/Decoder/Codec/EbDecBitReader.h:aom_read_symbol_"]
 META = {
-    "level_text": "Bounded symbolic round trip through the real range encoder and the real range decoder (symbols, CDFs, probabilities, adaptation flag all symbolic) plus inductive one-step lemmas from arbitrary coder states (adaptation equivalence and validity preservation for alphabets 2..16, range-register lock-step, renormalisation invariant incl. byte-offset exactness near 2^16).",
+    "level_text": "The round trips are repeated with the writer initialised (real svt_od_ec_enc_init) with 1..3-entry buffers, and a 2-safety lemma shows that from any writer state holding 0..3 pre-carry entries the emitted bytes do not depend on the buffer capacity, i.e. output held in the buffers survives their growth (growth is otherwise first reached after 62025 bytes). Bounded symbolic round trip through the real range encoder and the real range decoder (symbols, CDFs, probabilities, adaptation flag all symbolic) plus inductive one-step lemmas from arbitrary coder states (adaptation equivalence and validity preservation for alphabets 2..16, range-register lock-step, renormalisation invariant incl. byte-offset exactness near 2^16).",
     "level_note": "End-to-end round trips are bounded to K symbols (quick: 1 multi-symbol of alphabet <=4, 1 boolean; thorough: alphabets 8/16, 2 booleans); longer sequences are covered only by the step lemmas, which are necessary but not sufficient for the round trip. Allocation failure inside the writer is assumed away (C16 territory).",
     "assumptions": ["CDF validity: 32768 > icdf[0] >= ... >= icdf[n-1] == 0, counter <= 32", "malloc succeeds in svt_od_ec_enc_init"],
     "outside": ["symbol sequences longer than the stated K end-to-end", "svt_aom_daala_stop_encode's copy into the picture bitstream buffer (C11)"],
@@ -32,8 +32,11 @@ def queries(tier):
     qs.append(Query(name="rt_sym_K1_n4_small_buffers_2", harness="C25/ec.c", entry="rt_sym", defines=["K=1", "NMAX=4", "SMALL_INIT=2"], unwind=20, funcs=FW + FR,
                     bound="1 symbol, alphabet 2..4, arbitrary valid CDF, initial writer buffers of 2 entries", what="decoded == written, tables equal, although the buffers had to grow while holding output", timeout=900))
     for t in (1, 2, 3):
-        qs.append(Query(name="lem_capacity_tight%d" % t, harness="C25/ec.c", entry="lem_capacity", defines=["TIGHT=%d" % t], unwind=20, funcs=[FW[1], FW[2], FW[4], "Source/Lib/Common/Codec/EbBitstreamUnit.c:svt_od_ec_enc_done"],
-                        bound="arbitrary writer state in its invariant holding 0..%d pre-carry entries (9-bit), one boolean with any probability, then termination; buffers of 64 vs %d entries" % (t, t), what="emitted bytes identical whether or not the pre-carry / byte buffers had to grow while holding output", timeout=900))
+        for mode in ("step", "done"):
+            qs.append(Query(name="lem_capacity_%s_tight%d" % (mode, t), harness="C25/ec.c", entry="lem_capacity", defines=["TIGHT=%d" % t] + (["CAP_STEP=1"] if mode == "step" else []), unwind=20,
+                            funcs=[FW[1], FW[2], FW[4]] if mode == "step" else ["Source/Lib/Common/Codec/EbBitstreamUnit.c:svt_od_ec_enc_done"],
+                            bound="arbitrary writer state in its invariant holding 0..%d pre-carry entries (9-bit), then %s; buffers of 64 vs %d entries" % (t, "one boolean with any probability" if mode == "step" else "termination", t),
+                            what="writer state / emitted bytes identical whether or not the pre-carry / byte buffers had to grow while holding output", timeout=900))
     for n in [2]:   # n=3 did not finish in 3000 s, n=4 not in 900 s; larger alphabets not attempted
         qs.append(Query(name="lem_range_lockstep_n%d" % n, harness="C25/ec.c", entry="lem_range_lockstep", defines=["NFIX=%d" % n], unwind=20,
                         funcs=[FW[0], FW[2], FR[0], FR[3]], bound="arbitrary range 32768..65535, arbitrary window, alphabet %d (one step)" % n,
